@@ -7,7 +7,6 @@ package main
 
 import (
 	"fmt"
-	"go/types"
 	"sort"
 	"strings"
 
@@ -42,7 +41,7 @@ type QFact struct {
 	lineIdx int
 	guard   Term
 	varSym  string
-	sort    Sort // sort of the bound variable (Int, or Str for "forall k string")
+	varSort Sort // sort of the bound variable ("" = Int)
 	ref     bool // the bound variable is a typed reference ("forall c *T"): never instantiated at index arithmetic
 	body    Term // range ==> body, with varSym free
 	unfolds []unfoldT
@@ -97,8 +96,11 @@ func (e *Env) quantPartsU(q *EQuant) (string, Term, Term, []unfoldT, error) {
 func (e *Env) quantParts0(q *EQuant) (string, Term, Term, error) {
 	e.vc.nfresh++
 	v := quote(fmt.Sprintf("q:%s!%d", q.Var, e.vc.nfresh))
-	qs, qt := e.quantVar(q)
-	env := e.with(map[string]TV{q.Var: {Term{v, qs}, qt}})
+	qt, err := e.quantVarType(q)
+	if err != nil {
+		return "", Term{}, Term{}, err
+	}
+	env := e.with(map[string]TV{q.Var: {Term{v, q.varSort()}, qt}})
 	env.bound = true
 	var unf []unfoldT
 	env.unfolds = &unf
@@ -121,22 +123,6 @@ func (e *Env) quantParts0(q *EQuant) (string, Term, Term, error) {
 	}
 	return v, rng, body, nil
 }
-
-// quantVar: sort and Go type of a quantifier's bound variable.
-func (e *Env) quantVar(q *EQuant) (Sort, types.Type) {
-	if q.Typ == "" {
-		return SInt, tInt
-	}
-	nerr := len(e.vc.errs)
-	t, s := e.vc.lemmaParamType(e, q.Typ)
-	if len(e.vc.errs) > nerr || t == nil {
-		e.vc.errs = e.vc.errs[:nerr]
-		return SInt, tInt // the error is reported by the clause evaluation
-	}
-	return s, t
-}
-
-func (e *Env) quantSort(q *EQuant) Sort { s, _ := e.quantVar(q); return s }
 
 func subst(t Term, sym string, by Term) Term {
 	return Term{strings.ReplaceAll(t.S, sym, by.S), t.Sort}
@@ -165,13 +151,12 @@ func (vc *VC) assumeClause(guard Term, env *Env, cl *Clause) {
 			continue
 		}
 		if q.Forall {
-			qs, qt := env.quantVar(q)
-			vc.qfacts = append(vc.qfacts, &QFact{lineIdx: len(vc.lines), guard: and(guard, h), varSym: v, sort: qs, ref: isRefType(qt), body: implies(rng, body), unfolds: unf})
+			vc.qfacts = append(vc.qfacts, &QFact{lineIdx: len(vc.lines), guard: and(guard, h), varSym: v, varSort: q.varSort(), ref: q.isRef(), body: implies(rng, body), unfolds: unf})
 			vc.skolemiseInner(guard, h, env, q, v, rng)
 			continue
 		}
-		w := vc.fresh("ex:"+q.Var, env.quantSort(q))
-		if _, wt := env.quantVar(q); isRefType(wt) {
+		w := vc.fresh("ex:"+q.Var, q.varSort())
+		if q.isRef() {
 			vc.refTerms[w.S] = true
 		}
 		vc.assume(and(guard, h), subst(and(rng, body), v, w))
@@ -183,7 +168,7 @@ func (vc *VC) assumeClause(guard Term, env *Env, cl *Clause) {
 			if !ok || !iq.Forall {
 				continue
 			}
-			_, wt := env.quantVar(q)
+			wt, _ := env.quantVarType(q)
 			ienv := env.with(map[string]TV{q.Var: {w, wt}})
 			ih, err := ienv.evalHyps(ip.hyps)
 			if err != nil {
@@ -193,17 +178,9 @@ func (vc *VC) assumeClause(guard Term, env *Env, cl *Clause) {
 			if err != nil {
 				continue
 			}
-			vc.qfacts = append(vc.qfacts, &QFact{lineIdx: len(vc.lines), guard: and(guard, h, ih), varSym: iv, sort: ienv.quantSort(iq), body: implies(irng, ibody)})
+			vc.qfacts = append(vc.qfacts, &QFact{lineIdx: len(vc.lines), guard: and(guard, h, ih), varSym: iv, varSort: iq.varSort(), ref: iq.isRef(), body: implies(irng, ibody)})
 		}
 	}
-}
-
-func isRefType(t types.Type) bool {
-	if t == nil {
-		return false
-	}
-	_, ok := t.Underlying().(*types.Pointer)
-	return ok
 }
 
 // skolemiseInner: for an assumed "forall v :: rng ==> (... H ==> exists i :: B ...)"
@@ -211,12 +188,16 @@ func isRefType(t types.Type) bool {
 // sides of ==> only (a positive position), assume also
 // "forall v :: rng && H ==> B[i := f(v)]" for a new function f, and remember f.
 func (vc *VC) skolemiseInner(guard, h Term, env *Env, q *EQuant, v string, rng Term) {
-	qs, qt := env.quantVar(q)
+	qs := q.varSort()
+	qt, err := env.quantVarType(q)
+	if err != nil {
+		return
+	}
 	benv := env.with(map[string]TV{q.Var: {Term{v, qs}, qt}})
 	benv.bound = true
 	for _, ip := range clauseParts(q.Body) {
 		iq, ok := ip.concl.(*EQuant)
-		if !ok || iq.Forall || iq.Typ != "" {
+		if !ok || iq.Forall || (iq.VarTyp != "" && iq.VarTyp != "int") {
 			continue
 		}
 		ih, err := benv.evalHyps(ip.hyps)
@@ -233,8 +214,8 @@ func (vc *VC) skolemiseInner(guard, h Term, env *Env, q *EQuant, v string, rng T
 		app := Term{"(" + fname + " " + v + ")", SInt}
 		fact := implies(and(rng, ih), subst(and(irng, ibody), iv, app))
 		vc.assume(and(guard, h), T(SBool, "(forall ((%s %s)) (! %s :pattern (%s)))", v, qs, fact.S, app.S))
-		vc.qfacts = append(vc.qfacts, &QFact{lineIdx: len(vc.lines), guard: and(guard, h), varSym: v, sort: qs, ref: isRefType(qt), body: fact})
-		vc.skolemFns = append(vc.skolemFns, &SkolemFn{lineIdx: len(vc.lines), name: fname, dom: qs, ref: isRefType(qt)})
+		vc.qfacts = append(vc.qfacts, &QFact{lineIdx: len(vc.lines), guard: and(guard, h), varSym: v, varSort: qs, ref: q.isRef(), body: fact})
+		vc.skolemFns = append(vc.skolemFns, &SkolemFn{lineIdx: len(vc.lines), name: fname, dom: qs, ref: q.isRef()})
 	}
 }
 
@@ -244,16 +225,19 @@ func (vc *VC) skolemiseInner(guard, h Term, env *Env, q *EQuant, v string, rng T
 // of the skolem functions of the assumptions, and the ends of the
 // existential's own range. Each added disjunct implies the existential, so
 // the strengthened goal implies the original one.
-func (vc *VC) existentialGoal(env *Env, q *EQuant, sk Term, skRef bool) (Term, bool) {
-	_, qt := env.quantVar(q)
+func (vc *VC) existentialGoal(env *Env, q *EQuant, sk Term) (Term, bool) {
 	parts := clauseParts(q.Body)
 	eligible := false
 	for _, ip := range parts {
-		if iq, ok := ip.concl.(*EQuant); ok && !iq.Forall && iq.Typ == "" && iq.Lo != nil {
+		if iq, ok := ip.concl.(*EQuant); ok && !iq.Forall && (iq.VarTyp == "" || iq.VarTyp == "int") && iq.Lo != nil {
 			eligible = true
 		}
 	}
 	if !eligible {
+		return Term{}, false
+	}
+	qt, err := env.quantVarType(q)
+	if err != nil {
 		return Term{}, false
 	}
 	// sk is declared with the obligation only: evaluate as under a binder, so
@@ -268,7 +252,7 @@ func (vc *VC) existentialGoal(env *Env, q *EQuant, sk Term, skRef bool) (Term, b
 			return Term{}, false
 		}
 		iq, ok := ip.concl.(*EQuant)
-		if !ok || iq.Forall || iq.Typ != "" || iq.Lo == nil {
+		if !ok || iq.Forall || (iq.VarTyp != "" && iq.VarTyp != "int") || iq.Lo == nil {
 			c, err := senv.evalBool(ip.concl)
 			if err != nil {
 				return Term{}, false
@@ -286,7 +270,7 @@ func (vc *VC) existentialGoal(env *Env, q *EQuant, sk Term, skRef bool) (Term, b
 		}
 		var cands []Term
 		for _, f := range vc.skolemFns {
-			if f.lineIdx <= len(vc.lines) && f.dom == sk.Sort && f.ref == skRef {
+			if f.lineIdx <= len(vc.lines) && f.dom == sk.Sort && f.ref == q.isRef() {
 				cands = append(cands, Term{"(" + f.name + " " + sk.S + ")", SInt})
 			}
 		}
@@ -334,13 +318,10 @@ func (vc *VC) obligeClause(kind, label, site string, guard Term, env *Env, cl *C
 				return
 			}
 			vc.nfresh++
-			qs, qt := env.quantVar(q)
-			sk := Term{quote(fmt.Sprintf("sk:%s!%d", q.Var, vc.nfresh)), qs}
+			sk := Term{quote(fmt.Sprintf("sk:%s!%d", q.Var, vc.nfresh)), q.varSort()}
 			goal := subst(implies(rng, body), v, sk)
-			{
-				if eg, ok := vc.existentialGoal(env, q, sk, isRefType(qt)); ok {
-					goal = implies(subst(rng, v, sk), eg)
-				}
+			if eg, ok := vc.existentialGoal(env, q, sk); ok {
+				goal = implies(subst(rng, v, sk), eg)
 			}
 			o := vc.oblige(kind, label, psite, and(guard, h), goal, src)
 			if o == nil {
@@ -350,14 +331,27 @@ func (vc *VC) obligeClause(kind, label, site string, guard Term, env *Env, cl *C
 			for _, u := range unf {
 				o.Extra = append(o.Extra, "(assert "+subst(eq(u.app, u.body), v, sk).S+")")
 			}
-			if sk.Sort != SInt || isRefType(qt) {
-				// a goal about all strings / all references of a type: the
-				// quantified assumptions of that kind at the skolem constant
-				// and at the witnesses of that sort
-				vc.refTerms[sk.S] = isRefType(qt)
+			if sk.Sort == SStr {
+				// string-keyed quantifier (map keys): instances at the skolem,
+				// at the string witnesses of assumed existentials and at the
+				// string locals (e.g. the key of a range loop)
 				cands := []Term{sk}
 				for _, w := range vc.witnesses {
-					if w.lineIdx <= len(vc.lines) && w.t.Sort == sk.Sort && vc.refTerms[w.t.S] == isRefType(qt) {
+					if w.lineIdx <= len(vc.lines) && w.t.Sort == SStr {
+						cands = append(cands, w.t)
+					}
+				}
+				vc.addInstances(o, append(cands, vc.strCellTerms(env)...))
+				continue
+			}
+			if q.isRef() {
+				// a goal about all references of a type: the quantified
+				// assumptions over references at the skolem constant and at
+				// the reference witnesses (no index arithmetic)
+				vc.refTerms[sk.S] = true
+				cands := []Term{sk}
+				for _, w := range vc.witnesses {
+					if w.lineIdx <= len(vc.lines) && vc.refTerms[w.t.S] {
 						cands = append(cands, w.t)
 					}
 				}
@@ -380,13 +374,19 @@ func (vc *VC) obligeClause(kind, label, site string, guard Term, env *Env, cl *C
 			}
 			var seeds []Term
 			for _, w := range vc.witnesses {
-				if w.lineIdx <= len(vc.lines) && w.t.Sort == env.quantSort(q) {
+				if w.lineIdx <= len(vc.lines) && w.t.Sort == q.varSort() {
 					seeds = append(seeds, w.t)
 				}
 			}
 			cands := vc.witnessCandidates(seeds, env)
-			if env.quantSort(q) != SInt {
-				cands = seeds
+			if q.varSort() == SStr {
+				cands = nil
+				for _, sd := range seeds {
+					if sd.Sort == SStr {
+						cands = append(cands, sd)
+					}
+				}
+				cands = append(cands, vc.strCellTerms(env)...)
 			}
 			disj := []Term{orig}
 			for _, c := range cands {
@@ -405,9 +405,47 @@ func (vc *VC) obligeClause(kind, label, site string, guard Term, env *Env, cl *C
 		}
 		if o := vc.oblige(kind, label, psite, and(guard, h), g, src); o != nil && len(vc.qfacts) > 0 {
 			// ground goal: offer the quantified assumptions at the integer locals
-			vc.addInstances(o, vc.witnessCandidates(nil, env))
+			vc.addInstances(o, append(vc.witnessCandidates(nil, env), vc.strCellTerms(env)...))
 		}
 	}
+}
+
+// strCellTerms lists the current values of the string-typed local variables
+// and of string-sorted names bound in the environment: the candidates at
+// which string-keyed quantified assumptions are instantiated.
+func (vc *VC) strCellTerms(env *Env) []Term {
+	var out []Term
+	seen := map[string]bool{}
+	st := env.cellState()
+	if st != nil {
+		var keys []ssa.Value
+		for k := range st.cells {
+			if _, ok := k.(*ssa.Alloc); ok {
+				keys = append(keys, k)
+			}
+		}
+		sortValues(keys)
+		for _, k := range keys {
+			t := st.cells[k]
+			if t.Sort == SStr && !seen[t.S] && len(out) < 8 {
+				seen[t.S] = true
+				out = append(out, t)
+			}
+		}
+	}
+	var names []string
+	for n := range env.vars {
+		names = append(names, n)
+	}
+	sort.Strings(names)
+	for _, n := range names {
+		tv := env.vars[n]
+		if tv.T.Sort == SStr && !seen[tv.T.S] && len(out) < 12 {
+			seen[tv.T.S] = true
+			out = append(out, tv.T)
+		}
+	}
+	return out
 }
 
 func (vc *VC) addInstances(o *Obligation, cands []Term) {
@@ -416,7 +454,7 @@ func (vc *VC) addInstances(o *Obligation, cands []Term) {
 			continue
 		}
 		for _, c := range cands {
-			if qs := qf.sort; (qs == "" && c.Sort != SInt) || (qs != "" && c.Sort != qs) || qf.ref != vc.refTerms[c.S] {
+			if (qf.varSort == SStr) != (c.Sort == SStr) || qf.ref != vc.refTerms[c.S] {
 				continue
 			}
 			o.Inst = append(o.Inst, "(assert "+implies(qf.guard, subst(qf.body, qf.varSym, c)).S+")")
